@@ -604,6 +604,15 @@ func (r *Router) Close() error {
 	r.logger.Debug("Running Close()", nil)
 	r.closed = true
 
+	// Handlers which were added but never started (AddHandler without RunHandlers, or a router
+	// which was never run) have no goroutine which would call handlersWg.Done: don't wait for them.
+	for name, h := range r.handlers {
+		if !h.started {
+			r.handlersWg.Done()
+			delete(r.handlers, name)
+		}
+	}
+
 	r.logger.Info("Closing router", nil)
 	defer r.logger.Info("Router closed", nil)
 
